@@ -12,6 +12,8 @@ reduction/10_000, else resets) and happens once when the manager is created; tra
 refused before the trade-enable time in all four swap handlers; a zero control factor or a
 static manager leaves the price target unbounded; the major-swap timestamp is stored only
 when is_major_swap; the stored variables come from the manager of the same pool.
+Also decided: intermediate products are wide enough for every validated constant set; changing the constants
+always resets the variables; the skip range is sized from the updated reference object;
 Not decided: per-step rates along a swap, the skip optimisation's equivalence, decay numerics."""
 from analysis import cfg, atoms as A, preach, writes
 from analysis.ir import callee_path, AnchorMissing
